@@ -10,6 +10,7 @@ real torch on every run by the cross-check.  Selection coefficients, weights, Ba
 """
 import torch
 import torch.nn as nn
+import torch.nn.functional as F
 from plinio.methods.supernet.supernet import SuperNet
 from plinio.methods.supernet.nn.module import SuperNetModule
 from plinio.cost import params, ops
@@ -51,7 +52,38 @@ class TwoBlocks(nn.Module):
         return self.head(self.b(y) + y)
 
 
-NETS = {'one-block': (OneBlock, ['blk']), 'twice': (Twice, ['blk']), 'two-blocks': (TwoBlocks, ['a', 'b'])}
+class ReluBlock(nn.Module):
+    """a user-defined block whose last traced node is a function"""
+    def __init__(self):
+        super().__init__()
+        self.c = nn.Conv1d(2, 2, 1)
+
+    def forward(self, x):
+        return F.relu(self.c(x))
+
+
+class ResBlock(nn.Module):
+    """a user-defined residual block: its traced form ends with an addition"""
+    def __init__(self):
+        super().__init__()
+        self.c = nn.Conv1d(2, 2, 1)
+
+    def forward(self, x):
+        return self.c(x) + x
+
+
+class UserBlocks(nn.Module):
+    """choice among a plain layer and two user-defined multi-op blocks"""
+    def __init__(self):
+        super().__init__()
+        self.blk = SuperNetModule([nn.Conv1d(2, 2, 1), ReluBlock(), ResBlock()], hard_softmax=True)
+        self.head = nn.Conv1d(2, 1, 1)
+
+    def forward(self, x):
+        return self.head(self.blk(x))
+
+
+NETS = {'user-blocks': (UserBlocks, ['blk']), 'one-block': (OneBlock, ['blk']), 'twice': (Twice, ['blk']), 'two-blocks': (TwoBlocks, ['a', 'b'])}
 SHAPE = (2, 2, 2)
 
 
@@ -216,6 +248,6 @@ HARNESSES = [
          quick=[dict(net=n, training=t) for n, t in (('one-block', True), ('twice', True), ('two-blocks', False))],
          thorough=[dict(net=n, training=t) for n in NETS for t in _B], timeout=120),
     dict(name='whole-supernet-export', fn='h_export', property=['C03', 'C18'], functions=_FUNCS,
-         quick=[dict(net=n, training=t) for n, t in (('one-block', True), ('twice', True), ('two-blocks', False), ('one-block', False))],
+         quick=[dict(net=n, training=t) for n, t in (('one-block', True), ('twice', True), ('two-blocks', False), ('one-block', False), ('user-blocks', False))],
          thorough=[dict(net=n, training=t) for n in NETS for t in _B], timeout=120),
 ]
